@@ -39,6 +39,7 @@ def parseIP4 (s : String) : Option IP4 :=
 
 def parseVal (s : String) : Option (PyVal V6) :=
   if s == "o" then some .other
+  else if s == "n" then some .none
   else if s.startsWith "s:" then (parseStr (s.drop 2).toString).map .str
   else if s.startsWith "i:" then ((s.drop 2).toString.toInt?).map .int
   else if s == "b:0" then some (.bool false)
@@ -140,6 +141,22 @@ def roundTripSvc (L : IPLib V6) (cfg : Cfg) (s : Service V6) : String :=
   let eq := match back with | .ok b => decide (b = s) | .error _ => false
   s!"ok {showSvc s} {showStr text} rt={showRes showSvc back |>.replace " " "_"} eq={if eq then 1 else 0}"
 
+/-- `<protocol or ~>/<h|p|r>=<value>`: one point of a `default_func(protocol, part)` -/
+def parseEntry (t : String) : Option (Option Str × ServicePart × PyVal V6) :=
+  match t.splitOn "=" with
+  | [l, v] =>
+    match l.splitOn "/", parseVal v with
+    | [k, part], some v =>
+      let key : Option (Option Str) := if k == "~" then some none else (parseStr k).map some
+      let part : Option ServicePart :=
+        if part == "h" then some .host else if part == "p" then some .port
+        else if part == "r" then some .protocol else none
+      match key, part with
+      | some key, some part => some (key, part, v)
+      | _, _ => none
+    | _, _ => none
+  | _ => none
+
 def handleOp (toks : List String) (t : Table) : String :=
   let L := lib t
   let cfg := repaired
@@ -176,6 +193,17 @@ def handleOp (toks : List String) (t : Table) : String :=
   | ["mksvc", p, a] => match parseVal p, parseVal a with
     | some p, some a => (match mkService L cfg p (.val a) with
       | .ok s => roundTripSvc L cfg s | .error e => showExc e)
+    | _, _ => "bad-op"
+  | ["addrd", v, dh, dp] => match parseVal v, parseVal dh, parseVal dp with
+    | some v, some dh, some dp => showRes showAddr (NetAddr.fromStringD L cfg (some (dh, dp)) v)
+    | _, _, _ => "bad-op"
+  | "svcd" :: v :: entries => match parseVal v, entries.mapM parseEntry with
+    | some v, some es =>
+      let g : SvcDefaults V6 := fun proto part =>
+        match es.find? (fun e => e.1 == proto && e.2.1 == part) with
+        | some e => e.2.2
+        | none => .none
+      showRes showSvc (Service.fromStringD L cfg g v)
     | _, _ => "bad-op"
   | ["rx", m, rx, s] => match parseMode m, parseRx rx, parseStr s with
     | some m, some rx, some s => if pyMatch rx m s then "1" else "0"
